@@ -1,4 +1,5 @@
 import GffProofs.Props.C16
+import GffProofs.Props.C16Db
 open GffProofs.C16
 #print axioms merge_partition_general
 #print axioms merge_partition
@@ -15,3 +16,17 @@ open GffProofs.C16
 #print axioms merge_counter_irrelevant
 #print axioms shipped_idBlind
 #print axioms merge_idempotent_objects
+open GffProofs.C16Db
+#print axioms children_bp_sum
+#print axioms children_bp_sum_error
+#print axioms childRows_once
+#print axioms mem_childRows
+#print axioms countCovered_separated
+#print axioms merge_total
+#print axioms children_bp_union
+#print axioms sortedRows_spec
+#print axioms mergeAll_eq
+#print axioms merge_all_effect
+#print axioms reparentAll_untouched
+#print axioms reparentAll_member
+#print axioms merge_all_new_rows
